@@ -763,6 +763,17 @@ func ruleNoCallerAlias(w *World, r *Report, pfx string) {
 					case *ssa.Call:
 						if isBuiltinCall(&x.Call, "append") {
 							walk(x.Call.Args[0], d+1)
+						} else if h := x.Call.StaticCallee(); h != nil && h.Blocks != nil && w.modSet[h] {
+							// a helper that builds the slice: what it returns
+							for _, hb := range h.Blocks {
+								if ret, ok := hb.Instrs[len(hb.Instrs)-1].(*ssa.Return); ok {
+									for _, rv := range ret.Results {
+										if _, isSl := rv.Type().Underlying().(*types.Slice); isSl {
+											walk(rv, d+1)
+										}
+									}
+								}
+							}
 						}
 					case *ssa.UnOp:
 						if x.Op == token.MUL {
@@ -777,5 +788,5 @@ func ruleNoCallerAlias(w *World, r *Report, pfx string) {
 			}
 		}
 	}
-	r.Floor(rule, 2, "PrependDecorators, AppendDecorators")
+	r.Floor(rule, 1, "the decorator groups set by PrependDecorators / AppendDecorators")
 }
